@@ -121,7 +121,7 @@ class C12(core.Prop):
                 out.append({'mode': 'aatext', 'idx': i, 'lablen': ll})
         # shared atoms (no contiguity clause): keys must still be 0..n-1 sorted by membership
         from .c10 import PROP as C10P
-        sc = [s for s in C10P.shapes(tier) if s.get('mode') != 'coarse' and 'c' not in s['smiles']]      # (shared aromatic atoms: known finding of C10)
+        sc = [s for s in C10P.shapes(tier) if s.get('mode') != 'coarse']      # (shared aromatic atoms: known finding of C10)
         for s in sc[::(12 if tier == 'quick' else 20)]:
             out.append({'mode': 'mol', 'case': s, 'shared': True})
         return out
